@@ -535,6 +535,63 @@ class TagWalker(FactWalker):
         return self._kills[bb]
 
 
+def pass_gate(crate, closure):
+    """The closure is a predicate handed to any / all / find / position in its parent, and the only things that
+    depend on that search's result are calls of expansion passes on the token vector - passes that test the tag of
+    every token they act on themselves (R12-1 / R10-2 / R13-1 check them).  Such a test decides whether a pass is
+    worth running, not what happens to a token: a quoted `*` at worst makes the pass run for nothing."""
+    parent = crate.fn(closure.parent) if getattr(closure, "parent", None) else None
+    if parent is None:
+        return None
+    # the closure itself does nothing but answer
+    for bb in closure.reachable:
+        t = closure.term(bb)
+        if t["k"] == "call" and last_seg(closure.callee(t)) not in PURE_LAST:
+            return None
+    site = None
+    for bb, t, c in parent.calls():
+        if last_seg(c) in ("any", "all", "find", "position", "rposition", "filter", "count"):
+            for a in parent.call_args(bb):
+                for sub in mir.subexprs(parent.expand_vars(strip_sites(a))):
+                    if sub[0] == "agg" and isinstance(sub[1], str) and sub[1].startswith("closure:") and \
+                            sub[1][len("closure:"):].rstrip("()") == closure.path:
+                        site = bb
+    if site is None or last_seg(parent.callee(parent.term(site))) not in ("any", "all"):
+        return None
+    atom = strip_sites(parent.call_expr(site))
+    dependent = set()
+    for bb in sorted(parent.reachable):
+        for tgt, a, val in parent.switch_edges(bb):
+            if strip_sites(a) == atom or any(sub == atom for sub in mir.subexprs(parent.expand_vars(strip_sites(a)))):
+                dependent |= edge_dominated(parent, bb, tgt)
+    if not dependent:
+        return None
+    passes = []
+    for x in sorted(dependent):
+        if not is_effect_block(parent, x):
+            continue
+        t = parent.term(x)
+        if t["k"] != "call":
+            # plain assignments of the unit result / returns are fine only when nothing else happens
+            if t["k"] == "return":
+                return None
+            if any(s_["k"] == "assign" and s_["place"]["l"] in parent.names for s_ in parent.blocks[x]["stmts"]):
+                return None
+            continue
+        c = parent.callee(t)
+        if c in GATED_PASSES:
+            passes.append(last_seg(c))
+        else:
+            return None
+    if not passes:
+        return None
+    return "decides only whether %s run(s); the pass tests each token's tag itself" % ", ".join(sorted(set(passes)))
+
+
+GATED_PASSES = {"shell::expand_brace", "shell::expand_glob", "shell::expand_brace_range", "shell::expand_home",
+                "shell::expand_env", "shell::expand_alias", "shell::do_command_substitution"}
+
+
 def run_sites(ctx, rule, crate, fn_filter=None, cls_filter=None):
     """evaluate all inspections in scope (optionally filtered); returns list of (insp, ok)."""
     results = []
@@ -553,6 +610,10 @@ def run_sites(ctx, rule, crate, fn_filter=None, cls_filter=None):
             counts[insp.desc] = n + 1
             ok, detail, npaths = check_inspection(crate, insp, local_insp)
             ctx.paths_enumerated += npaths
+            if not ok and body.kind == "closure":
+                why = pass_gate(crate, body)
+                if why is not None:
+                    ok, detail = True, why
             key = "%s|%s" % (rule, insp.key(n))
             ctx.ob(rule, body.path, "%s [%s] guarded by the token's tag" % (insp.desc, insp.cls), ok,
                    key=key, where=body.loc(insp.bb), detail=detail, crate=crate.kind)
